@@ -369,6 +369,26 @@ theorem EditOK.trans {h : Heap} {s : Slice} {r1 r2 : Heap × Slice} (e1 : EditOK
   · rw [h2]; exact e1.arr
   · exact Or.inr (Nat.le_trans e1.step.len h2)
 
+theorem EditOK.refl (h : Heap) (s : Slice) (hw : h.WF s) : EditOK h s (h, s) :=
+  ⟨HeapStep.refl _ _, hw, Or.inl rfl⟩
+
+/-- the repaired `remove`: the old step, iterated -/
+theorem removeAllN_ok (n : Nat) (h : Heap) (s : Slice) (v : String) (hw : h.WF s) : EditOK h s (removeAllN n h s v) := by
+  induction n generalizing h s with
+  | zero => exact EditOK.refl h s hw
+  | succ n ih =>
+    unfold removeAllN
+    exact (removeS_ok h s v hw).trans (ih _ _ (removeS_ok h s v hw).wf)
+
+theorem removeAllS_ok (h : Heap) (s : Slice) (v : String) (hw : h.WF s) : EditOK h s (removeAllS h s v) :=
+  removeAllN_ok s.len h s v hw
+
+theorem removeFix_ok (fx : Fixes) (h : Heap) (s : Slice) (v : String) (hw : h.WF s) : EditOK h s (removeFix fx h s v) := by
+  unfold removeFix
+  split_ifs
+  · exact removeAllS_ok h s v hw
+  · exact removeS_ok h s v hw
+
 namespace PK
 
 /-! ### every slice lies in the heap, no two owners share an array -/
